@@ -1229,6 +1229,7 @@ namespace
             return {};
         }
         auto val = params[1];
+        auto oldsize = arr->size();
         if (static_cast<int>(arr->size()) <= index)
         {
             arr->resize(index + 1);
@@ -1236,8 +1237,9 @@ namespace
         auto oldval = (*arr)[index];
         (*arr)[index] = val;
         if (!arr->recursion_test())
-        {
+        { // refused: the array stays exactly as it was (including its size)
             (*arr)[index] = oldval;
+            arr->resize(oldsize);
             runtime.__logmsg(err::ArrayRecursion(runtime.context_active().current_frame().diag_info_from_position()));
             return {};
         }
